@@ -417,6 +417,8 @@ class MockIncludeDirective:
             raise DirectiveError(
                 4, f'Directive "{self.name}": error reading file: {path}\n{error}.'
             ) from error
+        # drop a byte order mark, as docutils does for the top-level file
+        file_content = file_content.removeprefix("\ufeff")
 
         if self.renderer.sphinx_env is not None:
             # Emit the "include-read" event
